@@ -127,7 +127,26 @@ fn queue_file_range(
         let off = range.start + (blkn * bsize);
 
         pool.execute(move || {
-            let copy_result = copy_file_offset(&harc.infd, &harc.outfd, bytes, off as i64);
+            // copy_file_range(2) may legitimately move fewer bytes than
+            // asked for; keep going until the block is complete.
+            let mut done = 0u64;
+            let mut copy_result = Ok(0usize);
+            while done < bytes {
+                match copy_file_offset(&harc.infd, &harc.outfd, bytes - done, (off + done) as i64) {
+                    Ok(0) => {
+                        copy_result = Err(libfs::Error::InvalidSource("Source file ended prematurely."));
+                        break;
+                    }
+                    Ok(n) => {
+                        done += n as u64;
+                        copy_result = Ok(done as usize);
+                    }
+                    Err(e) => {
+                        copy_result = Err(e);
+                        break;
+                    }
+                }
+            }
             let stat_result = match copy_result {
                 Ok(bytes) => {
                     stat_tx.send(StatusUpdate::Copied(bytes as u64))
@@ -186,7 +205,10 @@ fn queue_file_blocks(
             let sparse_map = merge_extents(extents)?;
             let mut queued = 0;
             for ext in sparse_map {
-                queued += queue_file_range(&harc, ext.into(), pool, status_channel)?;
+                // Extents are block-aligned and may extend past EOF.
+                let r: Range<u64> = ext.into();
+                let r = cmp::min(r.start, len)..cmp::min(r.end, len);
+                queued += queue_file_range(&harc, r, pool, status_channel)?;
             }
             queued
         } else {
